@@ -332,7 +332,7 @@ func init() {
 					"p", "ap:d1/a.log:" + hx("two"), "ap:d1/b.log:" + hx("three"), "p", "rm:d1/b.log", "pp", "p", "cf:d1/b.log", "pp", "ap:d1/b.log:" + hx("four"), "p"})
 			}
 			// names with characters that mean something in a URL: they are names like any other
-			for _, ps := range [][]string{{"d1/*.log"}, {"d1/*", "r:d1/*.log"}} {
+			for _, ps := range [][]string{{"d1/*.log"}, {"d1/*", "r:d1/*.log"}, {"d1/q%zz.log", "d1/p%41.log", "d1/a#b.log"}, {"d1/*%*.log", "d1/a.log"}} {
 				emit(ps, "-", []string{"cf:d1/a#b.log", "cf:d1/q%zz.log", "cf:d1/p%41.log", "cf:d1/pA.log", "cf:d1/a.log", "cf:d1/w&x=y.log", "p", "p",
 					"ap:d1/a#b.log:" + hx("one"), "ap:d1/q%zz.log:" + hx("two"), "ap:d1/p%41.log:" + hx("three"), "ap:d1/pA.log:" + hx("four"),
 					"ap:d1/a.log:" + hx("five"), "ap:d1/w&x=y.log:" + hx("six"), "p", "rm:d1/a#b.log", "p", "cf:d1/a#b.log", "p", "ap:d1/a#b.log:" + hx("seven"), "p"})
